@@ -223,27 +223,29 @@ func c07OrderLayer(c *Ctx) {
 			defaultLayer, _ = sp.Members["defaultLayer"].(*ssa.Global)
 		}
 	}
-	tagWalk(layer, typeField, func(in ssa.Instruction, f tagFacts) {
-		call, ok := in.(*ssa.Call)
-		if !ok || len(f) != 1 || len(call.Call.Args) < 1 {
-			return
-		}
-		isHash := false
-		if ld, ok := call.Call.Value.(*ssa.UnOp); ok && ld.Op == token.MUL && defaultLayer != nil && ld.X == defaultLayer {
-			isHash = true
-		}
-		if !isHash {
-			return
-		}
-		var tag int64
-		for _, v := range f {
-			tag = v
-		}
-		if rep[tag] == nil {
-			rep[tag] = map[string]bool{}
-		}
-		rep[tag][an.Unwrap(call.Call.Args[0]).Type().String()] = true
-	})
+	for _, lf := range c.Scope(layer).Funcs { // the switch may sit in an immediately-invoked closure
+		tagWalk(lf, typeField, func(in ssa.Instruction, f tagFacts) {
+			call, ok := in.(*ssa.Call)
+			if !ok || len(f) != 1 || len(call.Call.Args) < 1 {
+				return
+			}
+			isHash := false
+			if ld, ok := call.Call.Value.(*ssa.UnOp); ok && ld.Op == token.MUL && defaultLayer != nil && ld.X == defaultLayer {
+				isHash = true
+			}
+			if !isHash {
+				return
+			}
+			var tag int64
+			for _, v := range f {
+				tag = v
+			}
+			if rep[tag] == nil {
+				rep[tag] = map[string]bool{}
+			}
+			rep[tag][an.Unwrap(call.Call.Args[0]).Type().String()] = true
+		})
+	}
 	if len(rep) < 3 {
 		c.R.Unk(rule, "s3db.(*Key).Layer: class table", c.P.Pos(layer.Pos()), "could not extract the per-class hashing calls from Layer: its shape changed")
 		return
@@ -529,7 +531,12 @@ func c07InsertGuards(c *Ctx) {
 		}
 		return nil
 	}
-	gk := keyOf(get.Common().Args[2])
+	var gk ssa.Value
+	for _, a := range get.Common().Args { // the *Key argument, wherever it sits (function or method form)
+		if k := keyOf(a); k != nil {
+			gk = k
+		}
+	}
 	sk := keyOf(set.Common().Args[3])
 	c.R.Cond(gk != nil && sk != nil && an.SameValue(gk, sk), rule, name+": uniqueness checked on the written key", c.P.Pos(set.Pos()),
 		"the row is fetched with NewKey(key) of the same key that is written", "the uniqueness lookup and the write use different keys")
@@ -713,10 +720,12 @@ func c07Exhaustive(c *Ctx) {
 	}
 	handled := func(fn *ssa.Function) map[int64]bool {
 		out := map[int64]bool{}
-		for _, b := range fn.Blocks {
-			if iff, ok := b.Instrs[len(b.Instrs)-1].(*ssa.If); ok {
-				if _, k, _, ok := typeTest(iff, typeField); ok {
-					out[k] = true
+		for _, hf := range c.Scope(fn).Funcs {
+			for _, b := range hf.Blocks {
+				if iff, ok := b.Instrs[len(b.Instrs)-1].(*ssa.If); ok {
+					if _, k, _, ok := typeTest(iff, typeField); ok {
+						out[k] = true
+					}
 				}
 			}
 		}
